@@ -2,6 +2,7 @@ package main
 
 import (
 	"fmt"
+	"go/token"
 	"go/types"
 	"sort"
 	"strings"
@@ -274,6 +275,27 @@ func runC05(w *World, r *Report) {
 			r.Check(f.Exported(), "C05.channel-state", n.Obj().Name()+"."+name+" exported", f.Pos(), "visible to the serializer", "mutable channel state in an unexported field is silently dropped by the byte store")
 			r.Check(loaded[name], "C05.channel-state", n.Obj().Name()+".load copies "+name, load.Pos(), "restored from the loaded channel", "load does not restore "+name+": bookkeeping (skips / readiness / values) is lost on resume")
 		}
+	}
+
+	// what a checkpoint holds is channel STATE; what the compiled runner builds is the channel itself, configuration
+	// included (the zero-value / empty-stream producers of a DAG channel are funcs — no codec keeps them). A resume
+	// therefore loads the state INTO the built channels and never puts a decoded channel in their place.
+	{
+		lc := w.Fn("compose", "channelManager.loadChannels")
+		fCh := w.Field("compose", "channelManager", "channels")
+		replaced := token.NoPos
+		for _, fw := range fieldWrites(lc) {
+			if sameField(fw.field, fCh) {
+				replaced = fw.in.Pos()
+			}
+		}
+		loads := 0
+		instrs(lc, func(in ssa.Instruction) {
+			if invokeName(in) == "load" {
+				loads++
+			}
+		})
+		r.Check(replaced == token.NoPos && loads > 0, "C05.channel-state", "loadChannels loads the saved state into the built channels", lc.Pos(), "built channel .load(saved channel); channelManager.channels itself is not written", "loadChannels writes channelManager.channels (a decoded channel takes the place of the built one) or no longer calls load: the decoded DAG channel lacks the zero-value / empty-stream producers the builder installs, so the first node of the resumed run that becomes ready without a data value (control-only dependency, skipped data sources, data-less branch target) panics on a nil func")
 	}
 
 	// ---- convert-restore-order
